@@ -1,5 +1,5 @@
 From Coq Require Import ZArith List Bool.
-From SLU Require Import Consts EtreeModel EtreeSpec EtreeArrProofs EtreePermProofs EtreeUFProofs EtreePostProofs EtreeColorderProofs EtreeSpecProofs.
+From SLU Require Import Consts EtreeModel EtreeSpec EtreeArrProofs EtreePermProofs EtreeUFProofs EtreePostProofs EtreeColorderProofs EtreeSpecProofs EtreeGameProofs EtreeTheoryProofs EtreeLiuProofs EtreeFullProofs EtreeReorderProofs EtreeFinalProofs.
 Import ListNotations.
 Local Open Scope Z_scope.
 
@@ -62,10 +62,21 @@ Theorem colorder_perm : forall m n colptr rowind perm_c,
     colorder false m n colptr rowind perm_c = Some out /\
     (forall i k, 0 <= i < n -> aget perm_c i = Some k ->
                  aget colbeg0 k = aget colptr i /\ aget colend0 k = aget colptr (i + 1)) /\
+    wf_pat m n colbeg0 colend0 rowind /\
     sp_coletree colbeg0 colend0 rowind m n = Some et0 /\ forest n et0 /\
     colorder_post n colptr perm_c et0 out.
 Proof. exact colorder_nonsym_ok. Qed.
 Print Assumptions colorder_perm.
+
+(* ... and the reported etree is the column elimination tree (definitional spec) of the FINAL A*Pc *)
+Theorem colorder_reports_final_etree : forall m n colptr rowind perm_c,
+  0 <= m -> 0 <= n -> wf_csc m n colptr rowind -> is_perm n perm_c ->
+  exists colbeg colend perm_out etree,
+    colorder false m n colptr rowind perm_c = Some (colbeg, colend, perm_out, etree) /\
+    wf_pat m n colbeg colend rowind /\
+    etree = coletree_spec colbeg colend rowind n.
+Proof. exact colorder_etree_final. Qed.
+Print Assumptions colorder_reports_final_etree.
 
 (* symmetric mode: same conclusions for every run of the model that returns a result (partial: the
    totality of at_plus_a on well-formed square input is not proved) *)
@@ -76,15 +87,19 @@ Theorem colorder_perm_sym_partial : forall m n colptr rowind perm_c out,
 Proof. exact colorder_sym_ok_partial. Qed.
 Print Assumptions colorder_perm_sym_partial.
 
-(* sp_coletree = definitional spec: proved only for every pattern with <= 3 rows and <= 3 columns
-   (full statement: coletree_is_spec_full); larger patterns: three-way comparison on every run *)
-Theorem coletree_is_spec_partial : forall (m : nat) (cols : list (list Z)),
-  (m <= 3)%nat -> (length cols <= 3)%nat -> Forall (incr_in 0 (Z.of_nat m)) cols ->
-  let cp := colptr_of 0 cols in
-  sp_coletree (removelast cp) (tl cp) (rowind_of cols) (Z.of_nat m) (Z.of_nat (length cols))
-  = Some (coletree_spec (removelast cp) (tl cp) (rowind_of cols) (Z.of_nat (length cols))).
-Proof. exact coletree_is_spec_upto3. Qed.
-Print Assumptions coletree_is_spec_partial.
+(* sp_coletree / sp_symetree = the definitional spec (elimination game on the graph of M^T M, resp. of the
+   strict upper triangle): for EVERY well-formed pattern the model returns exactly the spec *)
+Theorem coletree_is_spec : forall nr nc acolst acolend arow,
+  0 <= nr -> 0 <= nc -> wf_pat nr nc acolst acolend arow ->
+  sp_coletree acolst acolend arow nr nc = Some (coletree_spec acolst acolend arow nc).
+Proof. exact sp_coletree_is_spec. Qed.
+Print Assumptions coletree_is_spec.
+
+Theorem symetree_is_spec : forall n acolst acolend arow,
+  0 <= n -> wf_pat n n acolst acolend arow ->
+  sp_symetree acolst acolend arow n = Some (symetree_spec acolst acolend arow n).
+Proof. exact sp_symetree_is_spec. Qed.
+Print Assumptions symetree_is_spec.
 
 (* the executable elimination step of the spec is the text-book one *)
 Theorem spec_elim_step : forall g k i j, square g -> (k < length g)%nat -> (i < length g)%nat -> (j < length g)%nat ->
